@@ -40,6 +40,9 @@ const W_DEAD_FLOW_WITH_LOCAL_DATA: u64 = 1 << 24;
 
 #[derive(Default)]
 struct Local {
+    /// how many non-default answers this local side may still give (None = as many as the explorer's budget allows);
+    /// the scenarios with megabytes per execution stop at one, whatever the tier's budget
+    env_left: Option<u32>,
     /// bytes the local side will produce in total
     out: Vec<u8>,
     /// handed out by fill_buf so far (end of the current buffer)
@@ -117,7 +120,7 @@ impl AsyncBufRead for Scripted {
         let rem = l.out.len() - l.produced;
         if rem == 0 {
             // default: end of stream; alternatives: not ready yet, error
-            let c = choose(&[Cost::Env, Cost::Env, Cost::Env]);
+            let c = env_choice(&mut l, &[Cost::Env, Cost::Env, Cost::Env]);
             return match c {
                 0 => {
                     l.eof_returned = true;
@@ -137,7 +140,7 @@ impl AsyncBufRead for Scripted {
             };
         }
         // default: up to 3 bytes; alternatives: 1 byte, not ready, error
-        let c = choose(&[Cost::Env, Cost::Env, Cost::Env, Cost::Env]);
+        let c = env_choice(&mut l, &[Cost::Env, Cost::Env, Cost::Env, Cost::Env]);
         match c {
             0 | 1 => {
                 let n = if c == 0 { rem.min(l.chunk.max(1)) } else { 1 };
@@ -194,7 +197,7 @@ impl AsyncWrite for Scripted {
             return Poll::Ready(Ok(0));
         }
         // default: everything; alternatives: one byte, not ready, error
-        let c = choose(&[Cost::Env, Cost::Env, Cost::Env, Cost::Env]);
+        let c = env_choice(&mut l, &[Cost::Env, Cost::Env, Cost::Env, Cost::Env]);
         match c {
             0 => {
                 if l.buffered {
@@ -235,7 +238,7 @@ impl AsyncWrite for Scripted {
             l.flush_waker = Some(cx.waker().clone());
             return Poll::Pending;
         }
-        let c = choose(&[Cost::Env, Cost::Env, Cost::Env]);
+        let c = env_choice(&mut l, &[Cost::Env, Cost::Env, Cost::Env]);
         match c {
             0 => {
                 let w = std::mem::take(&mut l.wbuf);
@@ -260,7 +263,7 @@ impl AsyncWrite for Scripted {
         if l.shutdown_ok {
             return Poll::Ready(Ok(()));
         }
-        let c = choose(&[Cost::Env, Cost::Env, Cost::Env]);
+        let c = env_choice(&mut l, &[Cost::Env, Cost::Env, Cost::Env]);
         match c {
             0 => {
                 l.shutdown_ok = true;
@@ -360,13 +363,27 @@ fn hx(v: &[u8]) -> String {
     if v.len() <= 24 { format!("{v:02x?}") } else { format!("[{} bytes: {:02x?}...]", v.len(), &v[..12]) }
 }
 
+/// An environment answer: the explorer's choice, unless this local side has used up its own allowance.
+fn env_choice(l: &mut Local, kinds: &[Cost]) -> usize {
+    if l.env_left == Some(0) {
+        return 0;
+    }
+    let c = choose(kinds);
+    if c != 0 {
+        if let Some(n) = l.env_left.as_mut() {
+            *n -= 1;
+        }
+    }
+    c
+}
+
 struct BridgeResult(Option<Result<(usize, usize), (io::ErrorKind, String)>>);
 
 fn exec(sc: &Scn, render: bool) -> RunOutput {
     let cfg = SideCfg { opts: opts(E_RWND, 1), rng: vec![] };
     let mut w = World::one(UNBOUNDED_CAP, 0, &cfg);
     let mut raw = Raw::new(1, w.sim.link.clone());
-    let local = Rc::new(RefCell::new(Local { out: (0..sc.local_out).map(|i| 0xa1u8.wrapping_add((i % 251) as u8)).collect(), chunk: if sc.chunk == 0 { 3 } else { sc.chunk }, stuck_write: sc.stuck == "write", stuck_flush: sc.stuck == "flush", buffered: sc.buffered, write_zero: sc.write_zero, ..Local::default() }));
+    let local = Rc::new(RefCell::new(Local { env_left: if sc.local_out > 500_000 { Some(1) } else { None }, out: (0..sc.local_out).map(|i| 0xa1u8.wrapping_add((i % 251) as u8)).collect(), chunk: if sc.chunk == 0 { 3 } else { sc.chunk }, stuck_write: sc.stuck == "write", stuck_flush: sc.stuck == "flush", buffered: sc.buffered, write_zero: sc.write_zero, ..Local::default() }));
     let result = Rc::new(RefCell::new(BridgeResult(None)));
     {
         let mux = w.mux(0);
@@ -784,7 +801,7 @@ pub fn run(args: &Args) -> Report {
     let thorough = args.thorough();
     let mut cases = Vec::new();
     for sc in scenarios(thorough) {
-        cases.push(Case { try_unbounded: false, max_k: if sc.local_out > 500_000 && !thorough { 0 } else if sc.chunk > 1000 { 1 } else { u32::MAX }, label: format!("{} | local produces {} B, peer script {:?}, peer window {}, lazy_ack={}{}", sc.name, sc.local_out, sc.peer, sc.peer_rwnd, sc.lazy_ack, if sc.stuck.is_empty() { String::new() } else { format!(", local {} never ready", sc.stuck) }), exec: Box::new(move |r| exec(&sc, r)) });
+        cases.push(Case { try_unbounded: false, max_k: if sc.local_out > 500_000 { 0 } else if sc.chunk > 1000 { 1 } else { u32::MAX }, label: format!("{} | local produces {} B, peer script {:?}, peer window {}, lazy_ack={}{}", sc.name, sc.local_out, sc.peer, sc.peer_rwnd, sc.lazy_ack, if sc.stuck.is_empty() { String::new() } else { format!(", local {} never ready", sc.stuck) }), exec: Box::new(move |r| exec(&sc, r)) });
     }
     let plan = Plan {
         ks: if thorough { vec![0, 1, 2, 3, 4, 5] } else { vec![0, 1, 2] },
